@@ -185,6 +185,8 @@ def run_check(prop, tier, seed, replay):
         for n, (suite, args) in enumerate(cfg["suites"][tier]):
             a = dict(args)
             a["seed"] = seed * 1000 + n
+            if suite == "config":
+                a["bin"] = os.path.join(core.MEMCRSD_TARGET, "debug", "memcrsd")
             try:
                 runs.append((f"{suite}:{a.get('profile', '')}", core.run_harness(suite, os.path.join(work, f"{suite}{n}"), a,
                                                                                  timeout=240 if tier == "quick" else 3000)))
